@@ -739,8 +739,15 @@ func c18RunAPI(t *testing.T, st *vstat.Stats, p c18API) (v *viol) {
 		body = nil
 	}
 	applied := []string{}
-	if body != nil {
+	// every fourth request of a posting route goes out unaltered while the board is unreachable: it is refused, and a
+	// refused request changes nothing
+	boardDown := p.Op%4 == 0 && body != nil && (route == "/handleProcessedOperationJSON" || route == "/approveDKGParticipation" || route == "/sendMessage" ||
+		route == "/startDKG" || strings.HasPrefix(route, "/proposeSign") || route == "/reinitDKG")
+	if body != nil && !boardDown {
 		body, applied = applyJMuts(body, p.Muts)
+	}
+	if boardDown {
+		applied = []string{"unaltered, board unreachable"}
 	}
 	synctest.Test(t, func(t *testing.T) {
 		nd, dir, err := openSnapshot(tr, rec.SnapDir)
@@ -770,10 +777,25 @@ func c18RunAPI(t *testing.T, st *vstat.Stats, p c18API) (v *viol) {
 			}
 			nd.BeforeReset()
 		}
-		_, panicked, val := nd.SafeCall(method, path, body)
+		if boardDown {
+			nd.View.FailSends = 1 << 20
+		}
+		before := kvSnapshot(nd)
+		res, panicked, val := nd.SafeCall(method, path, body)
+		nd.View.FailSends = 0
 		if panicked {
 			v = violf("api-handler-panic:"+route, "%s with %v: the handler panicked: %v", route, applied, val)
 			return
+		}
+		if res.Status >= 400 && route != "/resetState" && route != "/saveOffset" {
+			if d := kvDiff(before, kvSnapshot(nd), world.Topic+"_offset"); len(d) > 0 {
+				v = violf("api-rejected-but-changed:"+route, "%s with %v was refused (http %d) but changed %v", route, applied, res.Status, d)
+				return
+			}
+			st.Class("api-refused-unchanged:" + route)
+			if boardDown {
+				st.Class("api-refused-unchanged:board-unreachable:" + route)
+			}
 		}
 		st.Class("route:" + route)
 		st.NonTrivial(fmt.Sprintf("a/%s/%v/%d", route, applied, p.Op%7))
